@@ -199,8 +199,14 @@ def main(inp, outp):
             o = Orbit(kep, DATE.change_scale(labs[(_ // 3) % 6]), "keplerian_mean", fframe, "Kepler")
         data.update(target_labels=[l1, l2], epoch_label=o.date.scale.name)
         try:
-            p1 = o.propagate((DATE + timedelta(seconds=t1)).change_scale(l1))
-            p12 = Orbit(np.asarray(p1), p1.date, p1.form, p1.frame, "Kepler").propagate((p1.date + timedelta(seconds=t2)).change_scale(l2))
+            if _ % 4 == 1:
+                # the other door: a duration counted from the orbit's own date
+                p1 = o.propagate(timedelta(seconds=t1))
+                p12 = Orbit(np.asarray(p1), p1.date, p1.form, p1.frame, "Kepler").propagate(timedelta(seconds=t2))
+                data["door"] = "propagate(timedelta)"
+            else:
+                p1 = o.propagate((DATE + timedelta(seconds=t1)).change_scale(l1))
+                p12 = Orbit(np.asarray(p1), p1.date, p1.form, p1.frame, "Kepler").propagate((p1.date + timedelta(seconds=t2)).change_scale(l2))
             d = o.propagate((DATE + timedelta(seconds=t1) + timedelta(seconds=t2)).change_scale(l2))
         except Exception as ex:
             clause("propagation completes", False, "kepler/raises[float]", f"{type(ex).__name__}: {ex} on {kep}", data)
